@@ -16,6 +16,8 @@ SPEC = {
                   "that hypothesis is false (file names are not written): C11_witness_stale_pass is kernel-checked and replayed on the "
                   "real binary (known findings); C11_outcome_eq_fresh_partial proves the property as coded whenever the runtime file "
                   "names are determined by the runtime attributes; C11_fixed_by_names shows writing the names closes the gap. "
+                  "The model covers both configurations — no artifact cache, and [cache] dir (build outputs and results files "
+                  "stored into / retrieved from the cache under (label, hash); C11_cache_restores_earlier_pass shows that path live). "
                   "Model instantiated with facts regenerated from RuntimeHash / ruleHash / IterRuntimeFiles / needToRun / "
                   "cachedTestResults / cacheOutputFiles; end-to-end correspondence with the real plz test.",
     "technique": "Lean 4 invariant proof over test histories (refinement to a fresh run) on top of the build model + regenerated facts + "
@@ -28,16 +30,33 @@ SPEC = {
         "every step; per-test pass/fail/error, cached-or-executed, results file presence, executed test and build commands, exit status "
         "compared; direct oracle = fresh plz test of the same tree in an empty directory, plus 'cached implies previous pass' and "
         "'a failing test is executed again'",
-        "modelled, not verified: Model/TestCache.lean transcribes test()/needToRun/cachedTestResults/cacheOutputFiles/RuntimeHash/"
-        "IterRuntimeFiles for local tests without artifact cache; test commands are abstract deterministic functions of the runtime "
-        "attributes and the (name, tree) list of runtime files; digests idealised as identity on pre-images",
-        "out of model: artifact cache retrieve/store of results, coverage files, test outputs, flaky retries, runtime_deps and test tools, "
-        "remote execution, sandboxing, timeouts",
+        "modelled, not verified: Model/TestCache.lean transcribes test()/needToRun/retrieveFromCache/cachedTestResults/cacheOutputFiles/"
+        "RuntimeHash/IterRuntimeFiles for local tests, with and without the directory artifact cache (the cache itself is a black box "
+        "map keyed by (label, hash), cf. C12); test commands are abstract deterministic functions of the runtime attributes and the "
+        "(name, tree) list of runtime files; digests idealised as identity on pre-images",
+        "out of model: coverage files, test outputs, flaky retries, runtime_deps and test tools, remote execution and the HTTP/RPC "
+        "caches, sandboxing, timeouts, stale outputs of EARLIER definitions left in plz-out (plz keeps them with their stamps; the "
+        "generator never returns to an earlier output name)",
     ],
     "assumptions": ["SHA-1 / CollapseHash modelled as injective on pre-images", "tests are deterministic functions of their runtime inputs",
                     "scratch filesystem supports user xattrs (plz falls back to files otherwise)"],
     "harness_timeout": 2400,
 }
 MUTATIONS = """
-(filled in after the dry-runs)
+Dry-runs on scratch copies (VERIF_REPO=/var/tmp/mC11x ./check C11 quick), all compile with and without -tags verif:
+a) test_step.go: call cacheOutputFiles unconditionally (drop the `if AllSucceeded()` guard at the call site)
+     -> fact storeCallGuard "" : C11_facts_ok / facts_store no longer check; direct oracle on generated AND corpus histories:
+        classes failing-result-reused, failing-test-not-executed-again (a no_test_output test that errors stores the dummy PASS
+        and is reported [cached] next time), incremental != fresh.  VIOLATION with replayable history.
+b) test_step.go needToRun: drop `else if !verifyHash(results file, hash) { return true }`
+     -> fact needToRunVerifiesResultsHash false: C11_facts_ok fails; oracle: stale PASS after a data edit, class
+        stale-result-despite-distinct-runtime-hash (unknown class => VIOLATION), 15 model/impl disagreements with the expected facts.
+c) incrementality.go RuntimeHash: loop no longer writes the file hashes (`h.Write(result)` removed)
+     -> fact runtimeHashLoopWrites []: C11_facts_ok fails; oracle: data edits undetected, class stale-result-despite-distinct-runtime-hash.
+d) incrementality.go ruleHash runtime block: drop `h.Write([]byte(target.GetTestCommand(state)))`
+     -> fact ruleHashRuntimeWrites lacks GetTestCommand: C11_facts_ok fails; oracle: a changed test_cmd reuses the old PASS.
+e) HARMLESS: rename the local `hash` to `rtHash` throughout test(), swap the two independent filepath.Join statements
+     -> facts identical (roles, not names), 0 disagreements, exit 0.
+Each of a-d was also confirmed standalone: mutant plz binary + harness (generated quick tier, seed 1) reports the classes above
+while the unmutated binary reports only the known classes; the extractor diff is exactly the one fact named.
 """
